@@ -2,7 +2,7 @@
    schedulers/components did (global update trace, tick log, master tick real times).
    Independent of the simulation function of Model/Sim.v: only the configuration, the
    flattening defined here and the device table are used. *)
-From TV Require Import Base Model.Wiring Model.Ticker Model.Component Model.Sim Model.SimTime Oracle.SimCheck.
+From TV Require Import Base Model.Wiring Model.Ticker Model.Component Model.Sim Model.SimTime Model.Inline Oracle.SimCheck.
 Open Scope Z_scope.
 
 (* ---------- flattening a nested configuration (C09, C03) *)
@@ -244,15 +244,31 @@ Definition same_devices (a b : sim_case) : bool :=
 Definition conns_set_eqb (a b : list conn) : bool :=
   forallb (fun x => existsb (conn_eqb x) b) a && forallb (fun y => existsb (conn_eqb y) a) b.
 
+(* inside the scope of the inlining theorem (Props/C09.v (3)) the configuration with the system
+   replaced by its contents IS the flattening *)
+Definition inline_is_flatten (cfg : config) : bool :=
+  match shape_of cfg with
+  | Some (c, lvc, _, _, _) =>
+      let f := inline cfg c lvc in
+      conns_set_eqb (flat_conns cfg) (l_conns (level_of f 1%positive))
+      && list_eqb Pos.eqb (flat_order 40 cfg 1%positive) (map fst (l_order (level_of f 1%positive)))
+  | None => true
+  end.
+
 (* 71 a device observes something else in the nested configuration than in its flattening;
-   73 the harness' flattening is not the one defined here *)
+   73 the harness' flattening is not the one defined here; 74 [inline] is not the flattening *)
 Definition check_flat_pair (p : pair_case) : list Z :=
   let '(n, f) := p in
   check_sim_all n ++ check_sim_all f ++
   (if same_devices n f && same_devices f n then [] else [71]) ++
   (if conns_set_eqb (flat_conns (sc_cfg n)) (l_conns (level_of (sc_cfg f) 1%positive))
       && list_eqb Pos.eqb (flat_order 40 (sc_cfg n) 1%positive) (map fst (l_order (level_of (sc_cfg f) 1%positive)))
-   then [] else [73]).
+   then [] else [73]) ++
+  (if inline_is_flatten (sc_cfg n) then [] else [74]).
+
+(* not a check: marks the pairs whose nested configuration is in the scope of the inlining theorem *)
+Definition in_inline_scope (p : pair_case) : list Z :=
+  match shape_of (sc_cfg (fst p)) with Some _ => [1] | None => [] end.
 
 (* 91 a device of the base configuration observes something else once a disconnected part is added *)
 Definition check_ext_pair (p : pair_case) : list Z :=
